@@ -25,7 +25,9 @@ def gen_tree(rng, hostile=True):
            "cliN": rng.choice([0, 0, 0, 1, 2]), "prios": rng.choice([[], [], ["top"], ["newest"], ["least-nested", "bottom"], ["most-recently-modified"]]),
            "pattern": rng.choice(["none", "none", "none", "name"])}
     if not cfg["S"]:
-        cfg["H"] = rng.random() < 0.2
+        # hard links reported as duplicates: the path to replace can be the very inode of the retained one (more often with `dedupe`,
+        # where cloning a file onto itself must fail without touching it)
+        cfg["H"] = rng.random() < (0.5 if cfg["op"] == "reflink" else 0.2)
     groups = []
     used = set()
     for g in range(rng.randint(1, 3)):
@@ -236,7 +238,9 @@ def run_one(t, want_c11=False):
             invd = lib.inventory(tree.work, with_times=True)
             invd = {k: v for k, v in invd.items() if k == "b" or k.startswith("b/") or k == "MV" or k.startswith("MV/")}
             dryfacts["dry_changed_tree"] = shape(invd, with_mtime=True) != shape(inv0, with_mtime=True)
-        r = lib.run_fclones(tree.dedupe_args(), tree.base, env, stdin=g.out, timeout=120)
+        # no file system of the sandbox can clone: `dedupe` runs with ioctl(FICLONE) emulated by the shim, in the order of the kernel's checks
+        denv = lib.shim_env(env, root=tree.work, emuclone=True) if cfg["op"] == "reflink" else env
+        r = lib.run_fclones(tree.dedupe_args(), tree.base, denv, stdin=g.out, timeout=120)
         inv1 = lib.inventory(tree.work, with_times=True)
         inv1 = {k: v for k, v in inv1.items() if k == "b" or k.startswith("b/") or k == "MV" or k.startswith("MV/")}
         reads1 = [{"f": proj(p), "v": read_id(p)} for rg in reported for p in rg["paths"]]
@@ -322,7 +326,7 @@ def tlc_eval(runs):
 def main(tier):
     chk = lib.Check("C02", tier)
     thorough = tier == "thorough"
-    chk.assumptions = ["content identity by SHA-256 of the bytes", "reflink success emulated only in C05; here `dedupe` runs natively (fails with EOPNOTSUPP and must then change nothing)",
+    chk.assumptions = ["content identity by SHA-256 of the bytes", "no file system of the sandbox supports reflinks: `dedupe` runs with ioctl(FICLONE) emulated by the LD_PRELOAD shim (kernel order of checks: EXDEV, EISDIR, EINVAL for non-regular files, 0 for an empty source, EINVAL for one inode, else the bytes of the source replace the start of the destination, which is never shrunk)",
                        "the documented-dangerous combination --match-links --symbolic-links is not generated"]
     # design level: group ; remove composed over a 4-path universe (Dedupe.tla), with the repair of partition() (Rescue): the file a
     # retained symbolic link resolves to is retained too.  Without it TLC must find the loss (-S --isolate, link in one root, target in the other)
